@@ -330,14 +330,20 @@ HOSTILE = [  # (interpreter flags, environment) of host applications the library
     ((), {"XPROC_FAST_CLOCK": "1", "TZ": "Pacific/Kiritimati", "HOME": "/nonexistent", "USER": "nobody"}),
     (("-O",), {"XPROC_DECIMAL_PREC": "2", "XPROC_WARN_ERROR": "1"}),
     (("-OO",), {"XPROC_RECURSION": "4000", "XPROC_NOGC": "1", "PYTHONHASHSEED": "12345"}),
+    # str/bytes comparisons are errors, every logger is at DEBUG (arguments of guarded debug lines are evaluated), few file descriptors
+    (("-bb",), {"XPROC_LOG_DEBUG": "1", "XPROC_MAX_FDS": "48"}),
+    (("-X", "dev"), {"XPROC_LOG_DEBUG": "1", "PYTHONHASHSEED": "7"}),
 ]
+# a host whose OpenSSL refuses MD5 for security purposes (FIPS mode): the library may fail there, it may not hand out other
+# assignments.  MC_FAIL_CLOSED_OK makes the oracle accept an exception in place of a group.
+HOSTILE_FIPS = ((), {"OPENSSL_CONF": os.path.join(VERIF, "tools", "openssl-fips.cnf"), "XPROC_FIPS": "1", "MC_FAIL_CLOSED_OK": "1"})
 
 
-def hostile_runs(res, module: str, func: str, units):
+def hostile_runs(res, module: str, func: str, units, extra_configs=()):
     """repeat a small part of a check in child interpreters that imitate unusual host applications (plus every
     environment variable the library's source mentions set to junk); violations carry the configuration"""
     junk = {n: "xproc-junk" for n in library_env_names() if not n.startswith(("XPROC_", "PYAB_REPO"))}
-    configs = list(HOSTILE) + ([((), junk)] if junk else [])
+    configs = list(HOSTILE) + list(extra_configs) + ([((), junk)] if junk else [])
     from concurrent.futures import ThreadPoolExecutor
 
     def one(cfg):
